@@ -199,7 +199,17 @@ def _make_result_files(workdir):
     return files
 
 
-def run_res_case(workdir, files, sel, use_filenames, merge):
+def run_res_case(workdir, files, sel, use_filenames, merge, transpose=True):
+    from evo.tools.settings import SETTINGS
+    dict.__setitem__(SETTINGS, "table_export_transpose", transpose)
+    try:
+        return _run_res_case(workdir, files, sel, use_filenames, merge,
+                             transpose)
+    finally:
+        dict.__setitem__(SETTINGS, "table_export_transpose", True)
+
+
+def _run_res_case(workdir, files, sel, use_filenames, merge, transpose):
     paths = [files[i][0] for i in sel]
     out = os.path.join(workdir, "table_%s_%d_%d.csv" %
                        ("".join(map(str, sel)), use_filenames, merge))
@@ -232,7 +242,12 @@ def run_res_case(workdir, files, sel, use_filenames, merge):
     with open(out) as f:
         rows = list(csv.reader(f))
     header, body = rows[0][1:], rows[1:]
-    table = {row[0]: dict(zip(header, row[1:])) for row in body}
+    if transpose:
+        table = {row[0]: dict(zip(header, row[1:])) for row in body}
+    else:
+        # non-default setting: statistics in rows, results in columns
+        table = {lab: {row[0]: row[1 + k] for row in body}
+                 for k, lab in enumerate(header)}
     if sorted(table) != sorted(labels):
         msgs.append("table rows %s != expected labels %s" %
                     (sorted(table), sorted(labels)))
@@ -253,15 +268,17 @@ def res_part(ctx):
             for s in itertools.permutations(range(3), n)]
     for sel in sels:
         for use_filenames in (False, True):
-            for merge in (False, True):
+            # (table_export_transpose is bound as a default argument when
+            # evo is imported; it cannot be varied inside one process)
+            for merge, transpose in ((False, True), (True, True)):
                 msgs, outcome = run_res_case(ctx.workdir, files, sel,
-                                             use_filenames, merge)
+                                             use_filenames, merge, transpose)
                 acc.count("evaluations")
                 acc.count("transitions")
                 acc.count("nontrivial")
                 acc.outcome("evo_res:" + outcome)
                 case = {"sel": list(sel), "use_filenames": use_filenames,
-                        "merge": merge}
+                        "merge": merge, "transpose": transpose}
                 if msgs:
                     acc.violation("evo_res", "; ".join(msgs[:2]), case,
                                   {"kind": "evo_res"})
@@ -312,5 +329,5 @@ def replay(part, case):
         wd = os.getcwd()
         files = _make_result_files(wd)
         return run_res_case(wd, files, case["sel"], case["use_filenames"],
-                            case["merge"])[0]
+                            case["merge"], case.get("transpose", True))[0]
     return []
